@@ -7,6 +7,7 @@ CONSTANTS
   FIX_REKEY = TRUE
   FIX_MOVED = TRUE
   FIX_RMALL = TRUE
+  FIX_PATHKEY = TRUE
   FIX_ENOENT = TRUE
 INVARIANT Emit
 CHECK_DEADLOCK FALSE
